@@ -23,7 +23,8 @@ ASSUMPTIONS = ['polling step of the kill loop is 0.1 s (kill_process); tolerance
                'a before_signal hook that vetoes the stop signal is covered by C14']
 
 CAUSES = ['stop', 'restart', 'decr', 'reload', 'reload-seq', 'reload-term', 'kill', 'kill-signum', 'kill-gt',
-          'kill-gt0', 'kill-gt-small', 'kill-pid', 'max_age', 'set-np', 'set-gt+stop', 'set-sig+stop', 'set-gt+decr']
+          'kill-gt0', 'kill-gt-small', 'kill-pid', 'max_age', 'set-np', 'set-gt+stop', 'set-sig+stop', 'set-gt+decr',
+          'badkill+stop']
 SIGS = {'TERM': signal.SIGTERM, 'INT': signal.SIGINT, 'QUIT': signal.SIGQUIT, 'USR1': signal.SIGUSR1}
 TOL = 1e-4
 STEP = 0.1
@@ -170,6 +171,13 @@ def run(scn, ch):
             world.run(until=lambda w: rq.replied() and w.slot() is None, horizon=1.0)
             t_cause = CLOCK.now
             world.request('decr' if c.endswith('decr') else 'stop', name='a')
+        elif c == 'badkill+stop':
+            # a kill request whose signal number the kernel rejects (EINVAL) fails; the next termination is an ordinary one
+            rq = world.request('kill', name='a', signum=100)
+            world.run(until=lambda w: rq.replied(), horizon=1.0)
+            world.run(horizon=0.2)
+            t_cause = CLOCK.now
+            world.request('stop', name='a')
         elif c == 'max_age':
             pass
         horizon = 2.5 + 4 * exp_g + (1.5 if c == 'max_age' else 0)
@@ -190,10 +198,20 @@ def _oracle(world, scn, res, exp_sig, exp_g, t_cause, t_end):
     zsig = [(t, pid, s) for (t, pid, s, via) in k.signal_log if via != 'os.kill' and k.procs[pid].watcher == 'z']
     res.check('C03.bystander_not_signalled', not zsig, lambda: 'workers of the bystander watcher z were signalled: %s' % zsig,
               where='watcher.send_signal')
+    if scn.cause.endswith('stop') and scn.E == 0:
+        # a stop terminates every worker the watcher had: each of them that was still running gets the stop signal
+        for p in k.spawn_log:
+            if p.watcher == 'a' and p.spawn_time < t_cause - TOL and (p.death_time is None or p.death_time > t_cause + TOL):
+                got = [s for (t, s, via) in p.signals if via != 'os.kill' and t >= t_cause - TOL and s == exp_sig]
+                res.check('C03.stop_signal_delivered', bool(got),
+                          lambda: 'worker %d was running when %s was requested at t=%.3f and never got signal %d (signals: %s)'
+                          % (p.pid - PID_BASE, scn.cause, t_cause, exp_sig, p.signals), where=site)
     for p in k.spawn_log:
         if p.watcher != 'a':
             continue
         sigs = [(t, s, via) for (t, s, via) in p.signals if via != 'os.kill' and s != 0]
+        if scn.cause == 'badkill+stop':
+            sigs = [x for x in sigs if x[0] >= t_cause - TOL]       # the rejected signal of the failed kill is not an episode
         if not sigs:
             continue
         t0, s0, _ = sigs[0]
